@@ -98,7 +98,9 @@ prop("C19", "content errors are reported at the byte that is wrong",
      "For every byte string up to the bound: if validate reports InvalidData/InvalidEnumTag the position is in the reference decoder's set of offending bytes; a complete-but-malformed image is never reported as InsufficientSize.",
      OUT_RO + ["images with more than one kind of defect: any offending byte is accepted"],
      ro("errpos", "error position names an offending byte (Bool, tag, UTF-8) at any nesting depth", only=CONSTRAINED,
-        shapes_quick=RO_QUICK + ["X_B"], shapes_thorough=[x for x in RO_THOROUGH if x != "X_B"]))
+        shapes_quick=RO_QUICK + ["X_B"], shapes_thorough=[x for x in RO_THOROUGH if x != "X_B"])
+     + [H("ro::V_SB_q::errpos", 600, 8, "all byte strings of length <= 8 of " + SHAPE_DOC["V_SB"] + " (one element; data offset 2 > length size 1)",
+          "error position inside a FlatVec element behind padding names an offending byte")])
 
 # ---------------------------------------------------------------- constructing families
 EM_COST = {"S_U16": 60, "S_SB": 60, "S_SS1": 60, "S_SE1": 90, "S_CE": 60, "S_SE16": 60, "S_PS": 60, "S_PE": 90,
@@ -278,7 +280,7 @@ XVOPS = ["push", "pop", "truncate", "edit"]
 STEP_ASSUME = ["a history is covered by one step from an arbitrary valid image (every validating image is a reachable state and every reachable state must validate, which each step re-asserts); the composition over steps is a paper argument"]
 
 
-def vsteps(what, quick=("V_U8_st", "V_U16_st", "V_P_st")):
+def vsteps(what, quick=("V_U8_st", "V_U16_st", "V_P_st", "V_U8L32_st")):
     return [H("step::%s::vec_step" % m, t, 12, "every valid image <= %d bytes x every operation (push, pop, push_slice<=3, truncate, clear, remove, swap_remove, resize, index write, extend_until_full) with arbitrary arguments; %s" % (n, doc),
               what, tier="quick" if m in quick else "thorough") for m, (doc, n, t) in VSTEP.items()]
 
